@@ -404,7 +404,9 @@ fn scenarios_unordered(prop: &str, tier: &str) -> Vec<Scenario> {
             let mut letters: Vec<usize> = vec![b.start];
             letters.extend(b.sub4.iter().map(|&i| i as usize));
             let alphabet: Vec<crate::kit::V> = letters.iter().map(|&i| b.alphabet[i].clone()).collect();
-            let fine: &[f64] = if thorough { &[0.002, 0.0005] } else { &[0.001] };
+            // (0.0004 on R^2 only: there the longest alphabet edge then exceeds 1000 L, so that a cap of a thousand
+            // check points per motion shows as well as one of a hundred)
+            let fine: &[f64] = if thorough { &[0.002, 0.0005, 0.0002] } else if kit == "RealVector" { &[0.001, 0.0004] } else { &[0.001] };
             for &f in fine {
                 for pk in Pk::ALL {
                     let fine_worlds = if thorough { vec![b.world_free(), b.world_named("subset0001", vec![b.obstacles[0].clone()])] } else { vec![b.world_named("subset0001", vec![b.obstacles[0].clone()])] };
